@@ -15,6 +15,7 @@
 package vh
 
 import (
+	"bytes"
 	"encoding/binary"
 	"encoding/json"
 	"fmt"
@@ -228,8 +229,38 @@ func Journal(prop, test string, c interface{}) {
 	}
 	raw, _ := json.Marshal(c)
 	b, _ := json.Marshal(&replayFile{Property: prop, Test: test, Case: raw})
-	writeAtomic(filepath.Join(dir, fmt.Sprintf("journal-%s-%s.json", test, Shard())), b)
+	journalMu.Lock()
+	defer journalMu.Unlock()
+	path := filepath.Join(dir, fmt.Sprintf("journal-%s-%s.json", test, Shard()))
+	j := journals[path]
+	if j == nil {
+		f, err := os.OpenFile(path, os.O_CREATE|os.O_WRONLY|os.O_TRUNC, 0o644)
+		if err != nil {
+			return
+		}
+		j = &journalFile{f: f}
+		journals[path] = j
+	}
+	// One write at offset 0 into a file that is kept open: a process that dies afterwards leaves the complete
+	// case behind (no create/rename per case - two million of those made the thorough tier I/O bound). A shorter
+	// case is padded with blanks up to the longest one so far, which JSON readers skip.
+	if len(b) < j.max {
+		b = append(b, bytes.Repeat([]byte{' '}, j.max-len(b))...)
+	} else {
+		j.max = len(b)
+	}
+	_, _ = j.f.WriteAt(b, 0)
 }
+
+type journalFile struct {
+	f   *os.File
+	max int
+}
+
+var (
+	journalMu sync.Mutex
+	journals  = map[string]*journalFile{}
+)
 
 func recordFail(prop, test string, c interface{}, o *Outcome) {
 	dir := os.Getenv("VERIF_OUT")
@@ -322,6 +353,9 @@ func startWatchdog() {
 				buf := make([]byte, 8<<20)
 				buf = buf[:runtime.Stack(buf, true)]
 				dump := string(buf)
+				if alt := os.Getenv("VERIF_REPO"); alt != "" && alt != "/repo" {
+					dump = strings.ReplaceAll(dump, strings.TrimSuffix(alt, "/")+"/", "/repo/") // development runs against a scratch tree
+				}
 				site := ""
 				for _, g := range strings.Split(dump, "\n\n") {
 					if !mutexWaitRe.MatchString(g) {
